@@ -108,6 +108,21 @@ def search_C12(pid, budget):
             if w.seen != exp or w.post != 1 or w._inbox.script:
                 fail(pid, "Worker.run", "processed %r (post_process x%d, %d scripted outcomes unconsumed), expected %r then exit" % (
                     w.seen, w.post, len(w._inbox.script), exp), script="".join(pat) + "S")
+    # "every pattern of queue-wait timeouts": arbitrarily long idle stretches (a live source that stays silent, a tokenizer
+    # blocked in read()) between messages and before the stop marker -- scripted, so no real waiting is involved
+    for idle in (7, 40, 400, 5000):
+        n += 1
+        script = ["E"] * idle + [msgs[0]] + ["E"] * idle + [msgs[1], msgs[2]] + ["E"] * idle
+        w = Rec()
+        w._inbox = ScriptQ(script + ["S"], STOPM)
+        try:
+            w.run()
+        except KeyboardInterrupt:
+            fail(pid, "Worker.run", "still waiting on its inbox after consuming the stop marker", script="E*%d M E*%d M M E*%d S" % (idle, idle, idle))
+        if w.seen != msgs or w.post != 1 or w._inbox.script:
+            fail(pid, "Worker.run", "with %d consecutive queue-wait timeouts between messages: processed %r (post_process x%d, %d scripted "
+                 "outcomes never consumed), expected %r then exit on the stop marker" % (idle, w.seen, w.post, len(w._inbox.script), msgs),
+                 script="E*%d M E*%d M M E*%d S" % (idle, idle, idle))
     # tokenizer worker: observers get (id, region) in order, then the stop marker; detections list matches
     for pat in ("aAAAaaAAAAaa", "aaaaaa", "", "AAAAAAAA", "aAa"):
         n += 1
